@@ -284,6 +284,12 @@ def _closest_points_on_segments_2d(a0x: float, a0y: float, a1x: float, a1y: floa
     if den > 0.0:
         s = (B * E - C * D) / den
         t = (A * E - B * D) / den
+    elif C > 0.0:
+        # Parallel segments (or the first one degenerate to a point): project a0 onto b
+        t = E / C
+    elif A > 0.0:
+        # The second segment is degenerate to a point: project it onto a
+        s = -D / A
 
     # clamp and recompute as needed
     if s < 0.0:
